@@ -322,6 +322,51 @@ OBLIGATIONS.append(Ob("documented_variables_collected_under_every_option", ob_do
                       bounds="option values enumerated by the explorer from the option set of the current source", max_paths=40))
 
 
+def ob_shipped_settings_accepted(env):
+    """every shipped tokamak settings file is accepted, with every value evaluated, by each of the real option sets its keys are handed to (equilibrium,
+    equilibrium regions, non-orthogonal spacing, mesh): the files are the whole domain of this clause, so they are enumerated, not abstracted"""
+    import yaml
+    import hypnotoad.cases.tokamak as tokm
+    files = sorted(set(SHIPPED["hypnotoad.scripts.hypnotoad_geqdsk"]) | {
+        os.path.relpath(os.path.join(dp, f), REPO) for dp, _, fs in os.walk(os.path.join(REPO, "integrated_tests")) for f in fs if f.endswith((".yml", ".yaml"))})
+    seen = 0
+    for rel in files:
+        path = os.path.join(REPO, rel)
+        if not os.path.exists(path):
+            continue
+        with open(path) as fh:
+            opts = yaml.safe_load(fh) or {}
+        if not isinstance(opts, dict):
+            continue
+        seen += 1
+        problems = []
+        try:
+            eq_opts = tokm.TokamakEquilibrium.user_options_factory.create(dict(opts))
+            dict(eq_opts)
+            holder = types.SimpleNamespace(user_options=eq_opts, nonorthogonal_options_factory=eqm.Equilibrium.nonorthogonal_options_factory)
+            eqm.Equilibrium.__init__(holder, dict(opts))                 # the real derivation of the non-orthogonal defaults from the equilibrium options
+            dict(holder.nonorthogonal_options)
+            reg_opts = eqm.EquilibriumRegion.user_options_factory.create(eq_opts)   # as EquilibriumRegion.__init__ does
+            dict(reg_opts)
+            dict(eqm.EquilibriumRegion.nonorthogonal_options_factory.create(holder.nonorthogonal_options)) if hasattr(
+                eqm.EquilibriumRegion, "nonorthogonal_options_factory") else None
+            dict(mesh_mod.BoutMesh.user_options_factory.create(dict(opts)))
+        except (TypeError, ValueError, KeyError) as e:
+            problems.append("%s: %s" % (type(e).__name__, str(e)[:160]))
+        env.claim("shipped_settings_accepted_by_every_option_set:" + rel, not problems)
+        if problems:
+            env.note("%s -> %s" % (rel, problems[0])) if hasattr(env, "note") else None
+    env.witness("files_read")
+    env.claim("shipped_settings_files_found", seen >= 5)
+
+
+OBLIGATIONS.append(Ob("shipped_settings_accepted_by_the_option_sets", ob_shipped_settings_accepted, tier="quick", family="option guards",
+                      encodes=["hypnotoad.cases.tokamak:TokamakEquilibrium.user_options_factory", "hypnotoad.core.equilibrium:EquilibriumRegion.user_options_factory",
+                               "hypnotoad.core.equilibrium:Equilibrium.__init__", "hypnotoad.core.mesh:BoutMesh.user_options_factory"],
+                      desc="the shipped reference/example/integrated-test settings files pass the type and value checks of every real option set (all values evaluated)",
+                      bounds="the shipped files (enumerated: they are the domain of the clause)"))
+
+
 for _m in ("hypnotoad.scripts.hypnotoad_geqdsk", "hypnotoad.scripts.hypnotoad_circular"):
     OBLIGATIONS.append(Ob("script_option_filter_" + _m.rsplit("_", 1)[1], _mk_script_filter(_m), tier="quick", family="option guards", encodes=[_m + ":main"],
                           desc="the 'options that are not used' filter of the command-line entry point never rejects an option that the entry point itself reads "
